@@ -564,7 +564,16 @@ class Fn:
                     continue
                 a = bind[root]
                 if v.name == root:
-                    actuals.append(self.expr(a))
+                    try:
+                        actuals.append(self.expr(a))
+                    except Unsupported:
+                        # `&path' of a struct-typed object (`&my_src->timerlist') handed to a translated callee: the
+                        # pointer value itself is an opaque input <path>_ptr; what the callee reads and writes through
+                        # it is re-rooted at <path> below, like for any other pointer argument
+                        b = self.path_of(a)
+                        if b[1] is not None or b[3] is not None:
+                            raise
+                        actuals.append(self.add_input(Var(b[0] + "_ptr", "Z")).name)
                     continue
                 base = self.path_of(a)
                 if base[1] is not None:
@@ -613,6 +622,13 @@ class Fn:
                 try:
                     av = self.expr(a_)
                 except Unsupported:
+                    if label in self.spec.get("logged_calls", []):
+                        # an argument outside the subset (e.g. `&c->request') is not recorded; the path still exists
+                        # (and is returned unchanged) because the statement pre-pass counts it among the stored ones
+                        an = "arg%d_%s" % (ai, label)
+                        self.add_input(Var(an, "arr"))
+                        if an not in self.written:
+                            self.written.append(an)
                     continue
                 if label in self.spec.get("logged_calls", []):
                     an = "arg%d_%s" % (ai, label)
@@ -892,8 +908,17 @@ class Fn:
                     return self.wrap_pre(pre, k())
                 tup = names[0] if len(names) == 1 else "(" + ", ".join(names) + ")"
                 pat = names[0] if len(names) == 1 else "'(" + ", ".join(names) + ")"
-                a = self.stmt(th, lambda: tup)
-                b = self.stmt(el, lambda: tup) if el is not None else tup
+                self.joinn = getattr(self, "joinn", 0) + 1
+                mark = "@JOIN%d@" % self.joinn
+                a = self.stmt(th, lambda: mark)
+                b = self.stmt(el, lambda: mark) if el is not None else mark
+                if "| None => None" in a or "with None => None" in a or "| None => None" in b or "with None => None" in b:
+                    # a branch runs a loop (or calls a function with one): its value is an option (None = out of
+                    # fuel), so the join is a match on the option, not a plain let
+                    a, b = a.replace(mark, "Some " + tup), b.replace(mark, "Some " + tup)
+                    return self.wrap_pre(pre, "match (if %s then\n%s else\n%s) with\n| None => None\n| Some %s =>\n%s\nend"
+                                         % (cnd, a, b, tup, k()))
+                a, b = a.replace(mark, tup), b.replace(mark, tup)
                 return self.wrap_pre(pre, "let %s := (if %s then\n%s else\n%s) in\n%s" % (pat, cnd, a, b, k()))
             a = self.stmt(th, k)
             b = self.stmt(el, k) if el is not None else k()
